@@ -94,6 +94,21 @@ def specCheck (src out : List PInstr) : Option String :=
       | [] => none
       | (a, b) :: _ => some s!"jump-{a.target}-retargeted-to-{b.target}-image-{(lookup img a.target).getD 0}"
 
+/-- offsets (in the unoptimised list) of the windows a pattern matches but declines (replacement as
+long as the window): the code is not shortened there, so the jump targets behind them must not move. -/
+def keptLoop (jumpTargets : List Nat) : Nat → Nat → List PInstr → List Nat
+  | _, _, [] => []
+  | 0, _, _ :: _ => []
+  | fuel + 1, i, cur :: tl =>
+    match firstMatch jumpTargets i (cur :: tl) (patternsByOpcode allPatterns cur.op) with
+    | some (candidate, window) =>
+      let n := candidate.opcodes.length
+      let rest := keptLoop jumpTargets fuel (i + n) ((cur :: tl).drop n)
+      match candidate.replace window with
+      | .ok r => if r.length == n then i :: rest else rest
+      | .error _ => rest
+    | none => keptLoop jumpTargets fuel (i + 1) tl
+
 def judgeList (unopt go : String) (extra : List String) : Verdict :=
   match parseList unopt with
   | none => .skip "bad-op"
@@ -106,9 +121,14 @@ def judgeList (unopt go : String) (extra : List String) : Verdict :=
       | .ok o => (collectJumpTargets o) != (collectJumpTargets src)
       | .error _ => false
     let rewritten := firedTags.any (fun t => t.endsWith "-rewritten")
+    let srcTargets := collectJumpTargets src
+    let kept := keptLoop srcTargets src.length 0 src
+    -- a declined window in front of a jump target: a pass that records a shift for it moves the target
+    let keptBeforeTarget := kept.any fun off => srcTargets.any fun t => off < t
     let tags := extra ++ firedTags ++ (if jumpsIn > 0 then ["jumps"] else ["no-jumps"])
       ++ (if shifted then ["jump-shifted"] else [])
-      ++ (if rewritten && shifted then ["!nt"] else [])
+      ++ (if keptBeforeTarget then ["kept-before-target"] else [])
+      ++ (if (rewritten && shifted) || keptBeforeTarget then ["!nt"] else [])
     if go == "panic" then
       -- the only panics of the pass: uint16 overflow (needs a positive shift: none of the real
       -- patterns grows the code) and an unknown path domain (never emitted by the compiler)
